@@ -31,6 +31,7 @@ def handle (line : String) : String :=
   | "serde" :: "rt" :: args => deCmd ("rt" :: args)
   | "serde" :: "de" :: args => deCmd ("de" :: args)
   | "serde" :: "fromvalm" :: args => deCmd ("fromvalm" :: args)
+  | "serde" :: "fromobj" :: args => deCmd ("fromobj" :: args)
   | "serde" :: args => serdeCmd args
   | "macro" :: args => macroCmd args
   | _ => "bad-op"
